@@ -596,6 +596,11 @@ func TestC15(t *testing.T) {
 		schedRoundRobin = k.RR
 		x := runSched(t, k.Prefix, nil, 3000, func(s *bsched.Sched) any { return c15Body(k, s) })
 		fmt.Println("replay:", c15Judge(c, k, x), schedLine(x))
+		if o, ok := x.Obs.(*c15Obs); ok {
+			for _, op := range o.Ops {
+				fmt.Printf("  op %c: %s %s\n", op.Op, op.Class, op.Err)
+			}
+		}
 		return
 	}
 	thorough := ev.Thorough()
